@@ -9,11 +9,14 @@
   C10.  The whole `shrink_types` result depends only on the *set* of merged types, up to Python `==` (union members as a
   set, TypedDict fields as a dict): `shrink_set`, with `shrink_perm`, `shrink_dup`, `infer_set` and the membership form
   `shrinkPerm_holds` as corollaries (Lemmas/ShrinkPerm.lean; `Ty.eqv` is an equivalence relation: Lemmas/EqvEquiv.lean).
+  The order of the blocks of a module stub (`ModuleStub.render`: generated TypedDict classes sorted by (name, text), function
+  and class stubs sorted by their unique names) is a function of the multiset of blocks: `module_render_order_independent`.
   Beyond the merge — that the rewriters and the renderer map `==` types to the same text up to member order — is evaluated
   on whole stubs across interpreter processes with different hash seeds (this check), not proved.
 -/
 import MTVerif.Lemmas.Keys
 import MTVerif.Lemmas.ShrinkPerm
+import MTVerif.Lemmas.ModuleRender
 namespace MT.C14
 open MT
 
@@ -144,5 +147,28 @@ theorem optKeys_perm (ts ts' : List Ty) (hp : ts.Perm ts') (s : String) : s ∈ 
 theorem reqKeys_dup (t : Ty) (ts : List Ty) (s : String) : s ∈ reqKeys (t :: t :: ts) ↔ s ∈ reqKeys (t :: ts) := by
   rw [mem_reqKeys_iff s _ (by simp), mem_reqKeys_iff s _ (by simp)]
   simp
+
+/-- C14, emission order: the text of a module stub does not depend on the order in which the stubs of its generated
+    TypedDict classes (same-named ones included), functions and classes were produced — which is the order the traces
+    were read in. -/
+theorem module_render_order_independent (imports : Option String) (tds tds' funcs funcs' classes classes' : List (String × String))
+    (h1 : tds.Perm tds') (h2 : funcs.Perm funcs') (h3 : classes.Perm classes')
+    (hf : UniqueNames funcs) (hc : UniqueNames classes) :
+    renderModule imports tds funcs classes = renderModule imports tds' funcs' classes' := by
+  unfold renderModule
+  rw [classBlocks_perm h1, namedBlocks_perm hf h2, namedBlocks_perm hc h3]
+
+/-- non-vacuity, and the case the sort key matters for: two generated classes with one name come out in text order,
+    whichever was produced first -/
+example : classBlocks [("ATypedDict", "class A: z"), ("ATypedDict", "class A: p")] = ["class A: p", "class A: z"] ∧
+    classBlocks [("ATypedDict", "class A: p"), ("ATypedDict", "class A: z")] = ["class A: p", "class A: z"] := by
+  have h2 : classBlocks [("ATypedDict", "class A: p"), ("ATypedDict", "class A: z")] = ["class A: p", "class A: z"] := by
+    unfold classBlocks
+    rw [List.mergeSort_of_pairwise]
+    · rfl
+    · simp only [List.pairwise_cons, List.mem_cons, List.mem_nil_iff, or_false, forall_eq, List.Pairwise.nil, and_true,
+        false_imp_iff, implies_true]
+      decide +kernel
+  exact ⟨(classBlocks_perm (List.Perm.swap _ _ _)).trans h2, h2⟩
 
 end MT.C14
